@@ -144,7 +144,7 @@ func panicHead(stderr string) string {
 // ---------------------------------------------------------------- ops
 
 // racescen in a binary without the detector (bin/check --replay): build the detector child and run the
-// scenario a few times with different delay seeds.
+// scenario up to 24 times with different delay seeds and regimes.
 func replayScen(a []string) string {
 	if raceEnabled {
 		return scenJSON(a)
@@ -163,8 +163,8 @@ func replayScen(a []string) string {
 		return "cannot build the race child: " + err.Error()
 	}
 	req := "racescen " + strings.Join(a, " ")
-	for k := int64(1); k <= 6; k++ {
-		if err := rr.start(k, 200, 30); err != nil {
+	for k := int64(1); k <= 24; k++ {
+		if err := rr.start(k, []int{0, 60, 300}[k%3], 30); err != nil {
 			return "cannot start the race child: " + err.Error()
 		}
 		ans, st := rr.ch.Ask(req, 120*time.Second)
@@ -179,7 +179,7 @@ func replayScen(a []string) string {
 		}
 		_ = ans
 	}
-	return "no race reported in 6 runs of the scenario (the schedule is not reproduced deterministically)"
+	return "no race reported in 24 runs of the scenario (a schedule is not reproduced deterministically; the recorded report is the evidence)"
 }
 
 func main() {
